@@ -10,11 +10,11 @@ RULE = ("patterns are PRINTED from ASTs of the documented grammar (the model re-
         "over 15 run-stable and 17 clock-dependent strftime directives with 0/1/2 arguments, zone utc|local, "
         "under TZ=UTC and TZ=Asia/Tokyo; (d) MDC with present / absent keys, with and without default, keys and "
         "defaults that are one literal or one escape (positive class) or several pieces (finding class); "
-        "(e) random ASTs: depth <= 4, sequences <= 4 nodes, literals over ASCII + 8 non-ASCII characters "
+        "(e) 8000 (quick) / 40000 (thorough) random ASTs: depth <= 4, sequences <= 4 nodes, literals over ASCII + 8 non-ASCII characters "
         "(2/3/4-byte, combining, Arabic-Indic digit, Roman numeral), 17 fill characters incl. the syntax "
         "characters, widths <= 40 written with leading zeros, min <= max; records: every level, 12 messages, "
         "targets, absent/present module, file, line (incl. 0 and u32::MAX), MDC maps of <= 3 entries, named / "
-        "unnamed threads. thorough: 10x random, debug AND release harness builds. "
+        "unnamed threads. thorough: debug AND release harness builds. "
         "non-trivial = the pattern contains a formatter and the AST is well-formed for the positive theorem; "
         "distinct = distinct case line")
 ASSUMPTIONS = [
@@ -247,7 +247,7 @@ def cases(rng, tier):
     out.append(mk(rng, tier, [fmt("m", (), spec(colon=1)), lit(">x"), fmt("l")]))
     out.append(mk(rng, tier, [fmt("", [[fmt("m", (), spec(colon=1)), lit("<y")]]), lit("tail")]))
     # (e) random ASTs
-    n_rand = 3000 if tier == "quick" else 30000
+    n_rand = 8000 if tier == "quick" else 40000
     for i in range(n_rand):
         depth = rng.choice([1, 2, 2, 3, 4])
         seq = g_seq(rng, depth, False, mdc_class_ok=True, lookahead_ok=(i % 40 == 0))
